@@ -138,6 +138,9 @@ def second_generation(sid, rnd, nx, ni, trigger, held_kind):
     s.await_exec(kind="rt", since=m)
     for i in ints:
         s.register("int:" + i, ints[i])
+    # a late request of the previous generation (its identifier) is refused: it is nobody's arrival
+    for e in exts:
+        s.call("ext:" + e, "next", id="old")
     tags = {}
     order = [w for w in parties + ["rt"] if w != held]
     rnd.shuffle(order)
